@@ -29,9 +29,9 @@ func init() {
 		},
 		N: func(t string) int {
 			if t == "thorough" {
-				return 45 * 12000
+				return 45 * 40000
 			}
-			return 45 * 500
+			return 45 * 2000
 		},
 		Batch: 4500,
 		Run:   runC08,
